@@ -821,7 +821,17 @@ func (c *fnCtx) addSprintfSite(x *ast.CallExpr) {
 	st := Site{File: f, Line: l, Kind: "sprintf", Func: c.name}
 	format, ok := strLit(x.Args[0])
 	if !ok {
-		st.Pieces = append(st.Pieces, Piece{T: "arg", K: c.classify(x.Args[0], newVisit()), What: "format " + exprStr(x.Args[0])})
+		// round 5 (seeded C10-e: fmt.Sprintf(" %s JOIN "+str, lj.tp) with str the RENDERED joined select): a format that is not a
+		// constant is interpreted by fmt whatever it is made of - a `%` inside rendered text (an escaped request string) becomes a
+		// verb, `%\'` loses the backslash that protects the quote.  Such a format is of unknown provenance whatever the class of its
+		// parts; the one exception is the pass-through parameter of FmtRawObject itself, whose every call is judged as a Sprintf site.
+		k := KUnclass
+		if id, isId := x.Args[0].(*ast.Ident); isId && c.name == "FmtRawObject" {
+			if _, isParam := c.params[id.Name]; isParam {
+				k = KAlias
+			}
+		}
+		st.Pieces = append(st.Pieces, Piece{T: "arg", K: k, What: "non-constant format " + exprStr(x.Args[0])})
 		for _, a := range x.Args[1:] {
 			st.Pieces = append(st.Pieces, c.argPiece(a))
 		}
@@ -831,9 +841,15 @@ func (c *fnCtx) addSprintfSite(x *ast.CallExpr) {
 	args := x.Args[1:]
 	next := 0
 	var text strings.Builder
+	// round 5: the decomposition below (text / argument / text ...) is this analyser's reading of the format; it is compared with what
+	// package fmt itself prints for the format over sentinel operands (expect = the concatenation the pieces stand for)
+	var expect strings.Builder
+	sentinels := make([]any, len(args))
+	checkable := true
 	flush := func() {
 		if text.Len() > 0 {
 			st.Pieces = append(st.Pieces, Piece{T: "text", S: text.String()})
+			expect.WriteString(text.String())
 			text.Reset()
 		}
 	}
@@ -853,7 +869,9 @@ func (c *fnCtx) addSprintfSite(x *ast.CallExpr) {
 		}
 		// flags, explicit index, width, precision
 		idx := -1
+		spec := ""
 		for i < len(format) && strings.IndexByte("+-# 0123456789.", format[i]) >= 0 {
+			spec += string(format[i])
 			i++
 		}
 		if i < len(format) && format[i] == '[' {
@@ -863,6 +881,7 @@ func (c *fnCtx) addSprintfSite(x *ast.CallExpr) {
 			i += j + 1
 		}
 		for i < len(format) && strings.IndexByte("+-# 0123456789.", format[i]) >= 0 {
+			spec += string(format[i])
 			i++
 		}
 		verb := byte('?')
@@ -883,15 +902,50 @@ func (c *fnCtx) addSprintfSite(x *ast.CallExpr) {
 			// numeric only if the static type of the argument is (types.go); otherwise fmt would print
 			// %!d(string=...) with the argument's bytes
 			st.Pieces = append(st.Pieces, c.verbArg(verb, args[idx]))
+			if verb == 'd' && (sentinels[idx] == nil || sentinels[idx] == 7000+idx) {
+				sentinels[idx] = 7000 + idx
+				// flags and width of an integer verb add sign, zeros or spaces only: the single verb is printed by fmt itself
+				expect.WriteString(fmt.Sprintf("%"+spec+"d", 7000+idx))
+			} else {
+				checkable = false // float verbs print a precision-dependent text; an operand used under two kinds of verb
+			}
 		case 's', 'v':
 			st.Pieces = append(st.Pieces, c.argPiece(args[idx]))
+			sv := "\x01arg" + strconv.Itoa(idx) + "\x02"
+			if sentinels[idx] == nil || sentinels[idx] == sv {
+				sentinels[idx] = sv
+				expect.WriteString(sv)
+			} else {
+				checkable = false
+			}
 		default:
 			st.Pieces = append(st.Pieces, Piece{T: "arg", K: KUnclass, What: "verb %" + string(verb) + " " + exprStr(args[idx])})
+			checkable = false
 		}
 	}
 	flush()
+	fmtChecks.Sites++
+	if checkable {
+		for i := range sentinels {
+			if sentinels[i] == nil {
+				checkable = false // an operand no verb consumes: fmt appends %!(EXTRA ...)
+				st.Pieces = append(st.Pieces, Piece{T: "arg", K: KUnclass, What: "operand without verb " + exprStr(args[i])})
+			}
+		}
+	}
+	if checkable {
+		fmtChecks.Compared++
+		if got := fmt.Sprintf(format, sentinels...); got != expect.String() {
+			fmtChecks.Differ++
+			st.Pieces = append(st.Pieces, Piece{T: "arg", K: KUnclass,
+				What: "package fmt prints this format differently from the analyser's decomposition (flags, width, index): " + strconv.Quote(got)})
+		}
+	}
 	sites = append(sites, st)
 }
+
+// how many constant formats were decomposed / compared with package fmt's own output over sentinel operands / differed
+var fmtChecks struct{ Sites, Compared, Differ int }
 
 // numericFormat: a Sprintf whose constant format has only numeric verbs and bytes of numeric_alphabet around them
 func (c *fnCtx) numericFormat(x *ast.CallExpr) bool {
@@ -1193,6 +1247,31 @@ func (c *fnCtx) scanSites(core bool) {
 			if core && isPkgCall(s, "fmt", "Sprintf") && !isErrorCtx(stack[:len(stack)-1]) && !c.quotedLater(stack[:len(stack)-1], s) && !c.excluded() {
 				c.addSprintfSite(s)
 			}
+			// round 5: the other formatting entry points of package fmt (none on main): Fprintf / Appendf are Sprintf behind a first
+			// argument; the Sprint / Fprint families print their operands with %v (and add spaces): every operand is judged
+			if core && !isErrorCtx(stack[:len(stack)-1]) && !c.excluded() {
+				switch {
+				case (isPkgCall(s, "fmt", "Fprintf") || isPkgCall(s, "fmt", "Appendf")) && len(s.Args) >= 2:
+					y := *s
+					y.Args = s.Args[1:]
+					c.addSprintfSite(&y)
+				case isPkgCall(s, "fmt", "Sprint") || isPkgCall(s, "fmt", "Sprintln") || isPkgCall(s, "fmt", "Fprint") || isPkgCall(s, "fmt", "Fprintln") ||
+					isPkgCall(s, "fmt", "Append") || isPkgCall(s, "fmt", "Appendln"):
+					if !seen[s.Pos()] {
+						seen[s.Pos()] = true
+						f, l := c.pos(s)
+						st := Site{File: f, Line: l, Kind: "fmt print", Func: c.name}
+						args := s.Args
+						if !isPkgCall(s, "fmt", "Sprint") && !isPkgCall(s, "fmt", "Sprintln") && len(args) > 0 {
+							args = args[1:]
+						}
+						for _, a := range args {
+							st.Pieces = append(st.Pieces, c.argPiece(a))
+						}
+						sites = append(sites, st)
+					}
+				}
+			}
 		case *ast.BinaryExpr:
 			if s.Op == token.ADD && !seen[s.Pos()] {
 				skip := !core || isErrorCtx(stack[:len(stack)-1]) || !c.stringy(s) || c.quotedLater(stack[:len(stack)-1], s) || c.excluded()
@@ -1289,5 +1368,5 @@ func main() {
 	})
 	enc := json.NewEncoder(os.Stdout)
 	enc.SetIndent("", " ")
-	enc.Encode(map[string]any{"sites": sites, "excluded": excludedFuncs, "types": typeStats})
+	enc.Encode(map[string]any{"sites": sites, "excluded": excludedFuncs, "types": typeStats, "fmt_checks": fmtChecks})
 }
